@@ -18,7 +18,7 @@ meta = {
     "property": ID,
     "property_title": prop["title"],
     "variant": M,
-    "origin": "written by an independent sub-agent that saw only the property record and a scratch worktree of /repo" + (" (round 3: it was also told which functions earlier rounds had changed and asked to use different sites and mechanisms)" if M in ("m5", "m6", "m5p") else (" (round 4: it was also told the earlier changes and asked to stay on the anchored mechanisms with a defect of a different kind)" if M in ("m7", "m8") else (" (round 7: a refactoring that moves code across a function boundary, with a property-breaking slip made while the code was moved)" if M in ("m9", "m10") else (" (round 11: a small feature or maintenance commit - counters, a knob, a ...With variant, validation, a fast path, buffer reuse, resource clean-up - with a property-breaking slip made while it was added)" if M in ("m11", "m12") else "")))),
+    "origin": "written by an independent sub-agent that saw only the property record and a scratch worktree of /repo" + (" (round 3: it was also told which functions earlier rounds had changed and asked to use different sites and mechanisms)" if M in ("m5", "m6", "m5p") else (" (round 4: it was also told the earlier changes and asked to stay on the anchored mechanisms with a defect of a different kind)" if M in ("m7", "m8") else (" (round 7: a refactoring that moves code across a function boundary, with a property-breaking slip made while the code was moved)" if M in ("m9", "m10") else (" (round 11: a small feature or maintenance commit - counters, a knob, a ...With variant, validation, a fast path, buffer reuse, resource clean-up - with a property-breaking slip made while it was added)" if M in ("m11", "m12") else (" (round 14: a small realistic maintenance change - fast path, cache, refactoring across a function boundary, clean-up - that needs a specific input, sequence or interleaving to manifest)" if M == "m13" else ""))))),
     "patch": "patch.diff (git apply at the repository root)",
     "demonstration": [os.path.basename(d) for d in demos],
     "demonstration_placement": DEST,
